@@ -48,7 +48,7 @@ def mask_where(self, mask, replace=None, remask=True, recursive=True):
         else:
             obj = replace.copy(recursive=True)
 
-        if remask:
+        if remask or np.any(self._mask_):   # an already masked value stays masked
             obj = obj.remask(True, recursive=recursive)
 
         return obj
@@ -71,6 +71,9 @@ def mask_where(self, mask, replace=None, remask=True, recursive=True):
 
     if remask:
         obj = obj.remask_or(mask, recursive=recursive)
+    elif not Qube.is_one_false(self._mask_):
+        # Elements that were already masked stay masked
+        obj = obj.remask_or(self._mask_, recursive=recursive)
 
     return obj
 
